@@ -140,7 +140,8 @@ def has_meta(s):
     return any(ch in s for ch in "&<>\"'|{}\\") or "--" in s
 
 
-def text_cue_nodes(line_strategy, min_lines=1, max_lines=4, empty_lines=True, split_nodes=False):
+def text_cue_nodes(line_strategy, min_lines=1, max_lines=4, empty_lines=True, split_nodes=False,
+                   empty_kinds=("br",)):
     """Nodes (TEXT/BREAK only) of one cue.  Returns {"nodes": [...], "lines": [...],
     "multi": bool, "empties": bool} where lines are the authored visible lines."""
     @st.composite
@@ -154,6 +155,13 @@ def text_cue_nodes(line_strategy, min_lines=1, max_lines=4, empty_lines=True, sp
             if i:
                 nodes.append({"br": 1})
                 if empty_lines and draw(st.integers(0, 5)) == 0:
+                    kind = draw(st.sampled_from(list(empty_kinds)))
+                    if kind == "style":
+                        # a line that holds nothing but an (empty) span of a style most formats
+                        # cannot express
+                        c = draw(st.sampled_from([{"color": "red"}, {"font-size": "1c"}, {"color": "#fff"}]))
+                        nodes.append({"s": True, "c": c})
+                        nodes.append({"s": False, "c": c})
                     nodes.append({"br": 1})
                     empties = True
             if split_nodes and " " in ln and draw(st.integers(0, 4)) == 0:
@@ -168,14 +176,14 @@ def text_cue_nodes(line_strategy, min_lines=1, max_lines=4, empty_lines=True, sp
 
 
 def simple_set(line_strategy, n_min=1, n_max=4, max_us=DAY, min_dur=0, lang="en-US",
-               empty_lines=True, split_nodes=False, min_gap=0, max_lines=4):
+               empty_lines=True, split_nodes=False, min_gap=0, max_lines=4, empty_kinds=("br",)):
     """Single-language set of TEXT/BREAK cues with distinct increasing times."""
     @st.composite
     def build(draw):
         spans = draw(sorted_spans(n_min, n_max, max_us, min_dur=min_dur, min_gap=min_gap))
         cues = []
         for a, b in spans:
-            body = draw(text_cue_nodes(line_strategy, 1, max_lines, empty_lines, split_nodes))
+            body = draw(text_cue_nodes(line_strategy, 1, max_lines, empty_lines, split_nodes, empty_kinds))
             cues.append({"start": a, "end": b, "nodes": body["nodes"], "style": {},
                          "layout": None, "lines": body["lines"], "multi": body["multi"],
                          "empties": body["empties"]})
